@@ -5,6 +5,7 @@ import (
 	"encoding/json"
 	"errors"
 	"fmt"
+	"math"
 )
 
 type transactionDto struct {
@@ -62,6 +63,9 @@ func (transaction *Transaction) UnmarshalJSON(data []byte) error {
 	}
 	if id != dto.Id {
 		return fmt.Errorf("wrong transaction ID, provided: %s, calculated: %s", dto.Id, id)
+	}
+	if len(dto.Outputs) > math.MaxUint16+1 {
+		return errors.New("transaction has too many outputs: an output index is 16 bits wide")
 	}
 	if len(dto.Inputs) == 0 {
 		if len(dto.Outputs) > 1 {
